@@ -7,7 +7,9 @@ import Tickit.Gen.WinFocusSrc
   Engine `focus` (C15).  Operations and observation format: see harness/focus.c.
   The model observation is printed from the model state; the specification verdict is `cursorSpec` evaluated on the
   tree *parsed from the implementation's observation* and compared with the implementation's terminal cursor
-  (after every `flush`), plus the order clauses on the implementation's focus-event log (after every `focus`).
+  (after every `flush`; in the `newmock` configuration that is what the library's mock terminal reports), plus the order
+  clauses on the implementation's focus-event log (after every `focus`), plus "the root window has the terminal's size"
+  after every `termsize`.
 -/
 namespace Tickit.Driver.FocusEngine
 open Tickit Tickit.Driver Tickit.WinTree Tickit.WinFocus
@@ -413,6 +415,16 @@ def stepOp (st : St) (ts : List String) (impl : String) : St × String × String
         | ["focus", ids] =>
           (match parseImpl st.prev, parseImpl impl, ids.toNat? with
            | some b, some a, some id => specFocus b a id
+           | _, _, _ => if impl.startsWith "ok" then "unparsable implementation observation" else "")
+        | ["termsize", ls, cs] =>
+          -- the root window follows the terminal (absolute positions are terminal positions only then)
+          (match parseImpl impl, ls.toInt?, cs.toInt? with
+           | some o, some l, some c =>
+             (match o.tree.wins[0]? with
+              | some r =>
+                if r.rect = ⟨0, 0, l, c⟩ then ""
+                else s!"the terminal is {l} x {c} but the root window is {r.rect.lines} x {r.rect.cols} at {r.rect.top},{r.rect.left}"
+              | none => "no root window")
            | _, _, _ => if impl.startsWith "ok" then "unparsable implementation observation" else "")
         | _ => ""
       let sv := if sv ≠ "" then sv else
